@@ -424,6 +424,11 @@ declspecs(struct scope *s, enum storageclass *sc, enum funcspec *fs, int *align)
 			if (!d || d->kind != DECLTYPE)
 				goto done;
 			t = d->type;
+			if (t->kind == TYPEARRAY && t->incomplete) {
+				/* an initializer completes the array type of the object it initializes, not the typedef */
+				t = mktype(TYPEARRAY, 0);
+				*t = *d->type;
+			}
 			tq |= d->qual;
 			++ntypes;
 			next();
@@ -1093,6 +1098,12 @@ decl(struct scope *s, struct func *f)
 					error(&tok.loc, "object '%s' with block scope and %s linkage cannot have initializer", name, d->linkage == LINKEXTERN ? "external" : "internal");
 				if (d->defined)
 					error(&tok.loc, "object '%s' redefined", name);
+				if (d->type->kind == TYPEARRAY && d->type->incomplete) {
+					/* likewise for other objects declared from the same specifiers */
+					t = mktype(TYPEARRAY, 0);
+					*t = *d->type;
+					d->type = t;
+				}
 				init = parseinit(s, d->type);
 				hasinit = true;
 			} else if (sc & SCEXTERN) {
